@@ -348,6 +348,28 @@ pub fn run_ring(which: Which, tier: Tier) -> ! {
         k1 = pick.len();
         pick.par_iter().for_each(|sc| explore_scenario(which, sc, 1, &tally));
     }
+    // thorough: every placement of TWO poll stalls on a few two-station critical configurations
+    let mut k2 = 0;
+    if tier == Tier::Thorough {
+        let pick: Vec<&Scenario> = scenarios.iter().filter(|s| critical(s) && s.ttr.is_none() && s.hsa == 6 && s.gap == 1 && (s.addrs == vec![1, 2] || s.addrs == vec![0, 5] || s.addrs == vec![4, 5]) && (s.phases == vec![0, 1, 2] || s.phases == vec![0])).collect();
+        k2 = pick.len();
+        pick.par_iter().for_each(|sc| {
+            // fork at the first level in parallel: the sequential recursion would use one core per scenario
+            let cfg = Arc::new(sc.build());
+            let mut forks: Vec<W3Run> = vec![];
+            let mut run = W3Run::new(&cfg);
+            while !run.done() {
+                let snapshot = run.clone();
+                let (i, effective) = run.step();
+                if effective && run.online[i] && !run.crashed[i] {
+                    let mut f = snapshot;
+                    f.stall_next(i);
+                    forks.push(f);
+                }
+            }
+            forks.into_par_iter().for_each(|mut f| explore_from(which, sc, &cfg, &mut f, 1, &tally, false));
+        });
+    }
     let mut ev = Evidence::default();
     ev.level = "model_checking";
     ev.states = tally.runs.load(Ordering::Relaxed);
@@ -362,7 +384,7 @@ pub fn run_ring(which: Which, tier: Tier) -> ! {
     if sk > 0 {
         ev.caps_hit.push(format!("time budget {budget_s}s: {sk} of {} scenarios not run", scenarios.len()));
     }
-    ev.bounds = json!({"scenarios": scenarios.len(), "stall_budget": tier.pick("0 everywhere, 1 on all critical configurations (19.2k, Tslot/4 pollers, slot >= 300, unloaded, no late joiner)", "1 on all <=3-station HSA-6 19.2k unloaded configurations with a slow poller, 0 elsewhere"), "critical_k1": k1});
+    ev.bounds = json!({"scenarios": scenarios.len(), "stall_budget": tier.pick("0 everywhere, 1 on all critical configurations (19.2k, Tslot/4 pollers, slot >= 300, unloaded, no late joiner)", "1 on all <=3-station HSA-6 19.2k unloaded configurations with a slow poller, 0 elsewhere"), "critical_k1": k1, "two_stall_configurations": k2});
     let outcomes = tally.outcomes.lock().unwrap().clone();
     ev.distinct_outcomes = outcomes.len() as u64;
     ev.extra.insert("outcomes".into(), json!(outcomes));
